@@ -481,7 +481,118 @@ func c04EnumSpace(maxLen int) (total int, at func(i int) c04EnumCase) {
 
 func init() {
 	vRegister("C04", "c04.random", checkC04)
+	vRegister("C04", "c04.bulk", checkC04Bulk)
 	vRegister("C04", "c04.enum", checkC04Enum)
+}
+
+
+// ---------------------------------------------------------------------------
+// bulk: hundreds of thousands of pairwise different entry lines in one file. Anything keyed by a short digest of a line
+// or a name (a memo, an interning table) meets its first collisions at this size; the oracle is the construction.
+
+type c04BulkCase struct {
+	Seed  uint64 `json:"seed"`
+	Lines int    `json:"lines"`
+	IsLog bool   `json:"islog"`
+}
+
+func c04BulkWord(s *uint64, min, max int) string {
+	*s = vSplitMix(*s)
+	n := min + int(*s%uint64(max-min+1))
+	b := make([]byte, n)
+	x := *s >> 8
+	for i := range b {
+		if x == 0 {
+			*s = vSplitMix(*s)
+			x = *s
+		}
+		b[i] = byte('a' + x%26)
+		x /= 26
+	}
+	return string(b)
+}
+
+func checkC04Bulk(c c04BulkCase, ctx *vCtx) *vFailure {
+	s := c.Seed
+	var sb strings.Builder
+	type ent struct {
+		name string
+		val  float64
+	}
+	var heads []string
+	var ents [][]ent
+	seen := make(map[string]bool, c.Lines)
+	for len(seen) < c.Lines {
+		if len(heads) == 0 || len(ents[len(ents)-1]) >= 40 {
+			h := fmt.Sprintf("%s %d", c04BulkWord(&s, 3, 9), len(heads))
+			if c.IsLog {
+				h = vFmtDay(len(heads)%20000, "")
+			}
+			heads = append(heads, h)
+			ents = append(ents, nil)
+			sb.WriteString(h + ":\n")
+		}
+		name := c04BulkWord(&s, 2, 7)
+		for k := int(vSplitMix(s) % 3); k > 0; k-- {
+			name += "/" + c04BulkWord(&s, 2, 6)
+		}
+		s = vSplitMix(s)
+		half := int64(s % 4000)
+		val := vFmtHalves(int(half))
+		line := "  " + name + ": " + val
+		if seen[line] {
+			continue
+		}
+		seen[line] = true
+		sb.WriteString(line + "\n")
+		ents[len(ents)-1] = append(ents[len(ents)-1], ent{name, float64(half) / 2})
+	}
+	ctx.NonTrivial(true)
+	ctx.Labelf("lines=%d", c.Lines)
+	i := 0
+	var fail *vFailure
+	err := parser.ParseStreamCallback(strings.NewReader(sb.String()), parser.NewDefaultConfig(), func(n *shared.ParserNode, perr error) (bool, error) {
+		if perr != nil {
+			fail = vFailf("bulk file (%d different entry lines): the parser reports %v on a well-formed file", c.Lines, perr)
+			return true, nil
+		}
+		if i >= len(heads) || n.Header != heads[i] {
+			fail = vFailf("bulk file: record %d has heading %q, expected %q", i, n.Header, heads[min(i, len(heads)-1)])
+			return true, nil
+		}
+		w := ents[i]
+		if len(n.Elements) != len(w) {
+			fail = vFailf("bulk file: record %d (%q) has %d entries, expected %d", i, n.Header, len(n.Elements), len(w))
+			return true, nil
+		}
+		for k, e := range n.Elements {
+			if e.Name != w[k].name || e.Value != w[k].val {
+				fail = vFailf("bulk file (%d different entry lines): record %d (%q) entry %d is (%q, %v), the file says (%q, %v)", c.Lines, i, n.Header, k, e.Name, e.Value, w[k].name, w[k].val)
+				return true, nil
+			}
+		}
+		i++
+		return false, nil
+	})
+	ctx.Run(1)
+	if fail != nil {
+		return fail
+	}
+	if err != nil {
+		return vFailf("bulk file: parser returned %v", err)
+	}
+	if i != len(heads) {
+		return vFailf("bulk file: %d records delivered, %d expected", i, len(heads))
+	}
+	return nil
+}
+
+func TestVerifC04Bulk(t *testing.T) {
+	n := vPick(8, 64)
+	lines := 400000
+	vEnum(t, "C04", "c04.bulk",
+		"files of 400 000 pairwise different entry lines (names of 1-3 path segments, values k/2) under 10 000 headings, built from a seed; every record, name and value compared with the construction",
+		fmt.Sprintf("%d files", n), n, func(i int) c04BulkCase { return c04BulkCase{Seed: uint64(vSeedBase)*1000003 + uint64(i)*7919 + 1, Lines: lines, IsLog: i%4 == 3} }, checkC04Bulk)
 }
 
 func TestVerifC04Random(t *testing.T) {
